@@ -704,3 +704,41 @@ func instrDominates(a, b ssa.Instruction) bool {
 	}
 	return a.Block().Dominates(b.Block())
 }
+
+// ThroughHelper resolves a value that is result #i of a call to a function
+// with a body (accepted by ok) to the value that function returns there:
+// the unique non-nil value among its returns (error paths return nil/zero).
+// It returns nil when v is not such a result or the callee returns more than
+// one distinct value.
+func ThroughHelper(v ssa.Value, ok func(*ssa.Function) bool) (ssa.Value, *ssa.Call) {
+	call, idx := TupleCall(v)
+	if call == nil {
+		return nil, nil
+	}
+	cal := Callee(&call.Call)
+	if cal == nil || cal.Blocks == nil || !ok(cal) {
+		return nil, nil
+	}
+	if idx < 0 {
+		idx = 0
+	}
+	var res ssa.Value
+	for _, r := range Returns(cal) {
+		rv := RetVals(r)
+		if idx >= len(rv) {
+			return nil, nil
+		}
+		o := Origin(rv[idx])
+		if IsNilConst(o) {
+			continue
+		}
+		if c, isC := o.(*ssa.Const); isC && c.Value == nil {
+			continue // zero value
+		}
+		if res != nil && Origin(res) != o {
+			return nil, nil
+		}
+		res = rv[idx]
+	}
+	return res, call
+}
